@@ -77,11 +77,14 @@ pub fn run_c14(cx: &mut Cx) {
     let opts = StepOpts { eintr: if cx.ch.chance("eintr", 1, 6) { 1 } else { 0 }, short_reads: if cx.ch.chance("short", 1, 6) { 1 } else { 0 }, ..Default::default() };
     // the trusted party's key may have fewer bases than the credential has attributes, as long as
     // it covers the hidden positions (CL03CommitmentPublicKey::generate(None, None) has one base)
-    let tp: Option<zkryptium::cl03::keys::CL03CommitmentPublicKey> = if trusted { let mut t = key.tp_cpk.clone(); if cx.ch.chance("trusted_key_with_few_bases", 1, 3) { t.g_bases.truncate(hidden.iter().max().unwrap() + 1); cx.count("probe.trusted_party_key_with_fewer_bases_than_attributes"); } Some(t) } else { None };
+    let tp: Option<zkryptium::cl03::keys::CL03CommitmentPublicKey> = if trusted && LN == 1024 && cx.ch.chance("trusted_party_on_a_larger_suite", 1, 5) { cx.count("probe.trusted_party_on_a_larger_suite"); Some(odd_size_tp_key(cx.run_seed, 2050, MAX_ATTR)) } else if trusted { let mut t = key.tp_cpk.clone(); if cx.ch.chance("trusted_key_with_few_bases", 1, 3) { t.g_bases.truncate(hidden.iter().max().unwrap() + 1); cx.count("probe.trusted_party_key_with_fewer_bases_than_attributes"); } Some(t) } else { None };
     let tp1 = tp.clone();
     cx.step(holder, "commit+prove", opts, move || holder_commit_and_prove_with(&k1, &m1, &h1, tp1.as_ref()), move |cx, st| {
         let hc = match st.out { Ok(h) => h, Err(c) => { cx.violation("C14", "generate_proof/failed".into(), format!("n={n} hidden={hidden:?}: {c:?}")); return; } };
-        let req = IssueRequest { pk: key.pk.clone(), bases: key.bases.0[..n].to_vec(), tp_cpk: tp.clone(), c_value: hc.c_value.clone(), ct_value: hc.ct_value.clone(), zk_json: hc.zk_json.clone(), revealed: revealed.clone(), revealed_idx: revealed_idx.clone(), hidden: hidden.clone() };
+        // (the issuer's base list may be longer than this credential's attribute vector)
+        let longer_bases = n < MAX_ATTR && cx.ch.chance("issuer_bases_longer_than_the_credential", 1, 3);
+        if longer_bases { cx.count("probe.issuer_bases_longer_than_the_credential"); }
+        let req = IssueRequest { pk: key.pk.clone(), bases: if longer_bases { key.bases.0.clone() } else { key.bases.0[..n].to_vec() }, tp_cpk: tp.clone(), c_value: hc.c_value.clone(), ct_value: hc.ct_value.clone(), zk_json: hc.zk_json.clone(), revealed: revealed.clone(), revealed_idx: revealed_idx.clone(), hidden: hidden.clone() };
         // honest request: proof verifies, the issuer signs, the unblinded signature verifies
         deliver_request(cx, issuer, key.clone(), req.clone(), "none".into(), true);
         let (k2, r2) = (key.clone(), req.clone());
